@@ -72,6 +72,9 @@ def check(repo: Repo, rep, tier):
     from .C03 import io_encoding
 
     io_encoding(repo, rep)
+    from .C05 import child_node_total
+
+    child_node_total(repo, rep)
 
 
 def cont(repo: Repo, rep):
